@@ -9,7 +9,7 @@ package types
 //verif:bound varints: every value below 2^63 (and below 2^31 for the 31-bit form)
 //verif:bound transactions of 1 input (spend, issuance, veto, coinbase) x 1 output (original, vote): one field at a time ("focus", every field in turn) is wide -- an integer anywhere in 0..2^63-1, a byte string of 0..2 arbitrary bytes, a state-data / argument list of 0..2 items of 0..2 bytes -- while all other integers are arbitrary below 128 and all other byte strings / list items have the fixed length fill (0 = nil, or 1 arbitrary byte; fill 0 for issuance and veto inputs only in the thorough tier); hashes and asset ids arbitrary; this includes the three suffix fields of an input and the suffix of an output
 //verif:bound block headers with 0..2 sup links (signature slots: the focus slot 0..2 bytes, the others fill bytes), witness 0..2 bytes; blocks of 0..1 transactions (thorough: 2) (spend x original, narrow fields) in the three serialisation forms
-//verif:bound text form: MarshalText/UnmarshalText of a 1x1 transaction, a header with one sup link and a block with one transaction, fields narrow (fill = 1), hashes and asset ids fixed constants; the block forms run with sync.Pool handing back the object Put last (pool=reuse), once directly and once with an unrelated longer block serialisation between decoding and comparing/re-encoding
+//verif:bound text form: MarshalText/UnmarshalText of a 1x1 transaction, a header with one sup link and a block with one transaction, fields narrow (fill = 1), hashes and asset ids fixed constants; the block forms run with sync.Pool handing back the object Put last (pool=reuse), once directly and once with an unrelated longer block serialisation between decoding and comparing/re-encoding; the transaction and header forms run a second time the same way (pool=reuse, unrelated serialisation in between)
 //verif:assume well-formed means: every integer field is below 2^63 (the writer rejects larger ones), asset version 1 and VM version 1 (the decoder rejects others), an issuance input carries the asset id computed from its own definition (as NewIssuanceInput does)
 //verif:assume SHA3-256 is an uninterpreted function without collisions (asset id of an issuance input, transaction ID)
 //verif:assume equality of values is modulo nil == empty for byte strings and lists (the decoders return nil for length 0)
@@ -21,7 +21,7 @@ package types
 //verif:obligation fn=VerifC04Block args=0,1;1,1;1,2;1,3 maps=lazy timeout=600000 secs=3600 validate=10
 //verif:obligation fn=VerifC04Block args=2,3 tier=thorough maps=lazy timeout=600000 secs=6000
 //verif:obligation fn=VerifC04Text args=0;1 maps=lazy idx=ite timeout=600000 secs=3600 validate=10
-//verif:obligation fn=VerifC04Text args=2;3 maps=lazy idx=ite pool=reuse timeout=600000 secs=3600
+//verif:obligation fn=VerifC04Text args=2;3;4;5 maps=lazy idx=ite pool=reuse timeout=600000 secs=3600
 
 import (
 	"bytes"
@@ -414,6 +414,42 @@ func VerifC04Text(what int) {
 		verifC04CompareHeaders(&bh, dec)
 		text2, err := dec.MarshalText()
 		verifAssert(err == nil && bytes.Equal(text, text2), "header-text-re-encodes-identically")
+	case 4, 5:
+		// transaction (4) / header (5) text decoded, then an unrelated longer serialisation, then compared
+		filler := make([]byte, 160)
+		for i := range filler {
+			filler[i] = 0xaa
+		}
+		other := &Block{BlockHeader: BlockHeader{Version: 0x2a2a2a2a2a2a, Height: 0x2a2a2a2a2a2a, Timestamp: 0x2a2a2a2a2a2a},
+			Transactions: []*Tx{NewTx(TxData{Version: 0x2a2a, Inputs: []*TxInput{NewCoinbaseInput(filler)}})}}
+		if what == 4 {
+			tx := verifC04SimpleTx(g)
+			text, err := tx.MarshalText()
+			verifAssert(err == nil, "tx-text-written")
+			dec := new(Tx)
+			err = dec.UnmarshalText(text)
+			verifAssert(err == nil, "tx-text-decodes")
+			otherText, err := other.MarshalText()
+			verifAssert(err == nil && len(otherText) > len(text), "unrelated-block-text-written")
+			otherTx, err := other.Transactions[0].MarshalText()
+			verifAssert(err == nil && len(otherTx) > len(text), "unrelated-tx-text-written")
+			verifC04CompareTx(&tx.TxData, &dec.TxData)
+			text2, err := dec.MarshalText()
+			verifAssert(err == nil && bytes.Equal(text, text2), "tx-text-re-encodes-identically")
+		} else {
+			bh := verifC04HeaderGen(g, 1)
+			text, err := bh.MarshalText()
+			verifAssert(err == nil, "header-text-written")
+			dec := new(BlockHeader)
+			err = dec.UnmarshalText(text)
+			verifAssert(err == nil, "header-text-decodes")
+			otherText, err := other.MarshalText()
+			verifAssert(err == nil && len(otherText) > len(text), "unrelated-block-text-written")
+			verifC04CompareHeaders(&bh, dec)
+			text2, err := dec.MarshalText()
+			verifAssert(err == nil && bytes.Equal(text, text2), "header-text-re-encodes-identically")
+		}
+		verifReach("VerifC04Text:after-unrelated-serialisation-tx-header")
 	default:
 		b := &Block{BlockHeader: verifC04HeaderGen(g, 0), Transactions: []*Tx{verifC04SimpleTx(g)}}
 		text, err := b.MarshalText()
